@@ -213,6 +213,84 @@ func runProfileConcurrent(p profSpec, G int, maxTokens int) profLine {
 	return out
 }
 
+type profDrain struct {
+	N    int     `json:"n"`
+	Neg  bool    `json:"neg"`
+	Fins [][]int `json:"fins"` // DISTINCT finish instants reported to the callers of this drain
+	Left int     `json:"left"`
+}
+
+type profMany struct {
+	profSpec
+	Dur    []int       `json:"dur"`
+	Via    string      `json:"via"`
+	Left0  int         `json:"left0"`
+	Drains []profDrain `json:"drains"`
+}
+
+// runProfileMany: `drains` concurrent drains (G goroutines released together) of fresh copies of one profile; per
+// drain only the number of operations, whether any lay before the start, the distinct finish instants and Left().
+func runProfileMany(p profSpec, G, drains int) profMany {
+	out := profMany{profSpec: p, Dur: vt.Limbs(p.DurNs), Via: "many", Drains: []profDrain{}}
+	for d := 0; d < drains; d++ {
+		s, err := p.build("ctor")
+		if err != nil {
+			panic(err)
+		}
+		if d == 0 {
+			out.Left0 = int(s.Left())
+		}
+		t0 := time.Unix(1700000000, 0)
+		s.Start(t0)
+		var gate int32
+		var wg sync.WaitGroup
+		var n int64
+		var negs int32
+		var mu sync.Mutex
+		fins := map[int64]bool{}
+		for g := 0; g < G; g++ {
+			wg.Add(1)
+			go func() {
+				defer wg.Done()
+				for atomic.LoadInt32(&gate) == 0 {
+				}
+				for {
+					t, ok := s.Next()
+					if !ok {
+						mu.Lock()
+						fins[int64(t.Sub(t0))] = true
+						mu.Unlock()
+						return
+					}
+					if t.Before(t0) {
+						atomic.StoreInt32(&negs, 1)
+					}
+					if atomic.AddInt64(&n, 1) > 10000000 {
+						return
+					}
+				}
+			}()
+		}
+		atomic.StoreInt32(&gate, 1)
+		wg.Wait()
+		dr := profDrain{N: int(n), Neg: negs != 0, Fins: [][]int{}, Left: int(s.Left())}
+		var fs []int64
+		for f := range fins {
+			fs = append(fs, f)
+		}
+		sort.Slice(fs, func(i, j int) bool { return fs[i] < fs[j] })
+		for _, f := range fs {
+			if f < 0 {
+				dr.Neg = true
+				f = -f
+			}
+			dr.Fins = append(dr.Fins, vt.Limbs(f))
+		}
+		out.Drains = append(out.Drains, dr)
+	}
+	return out
+}
+
 func relLimbs(t, t0 time.Time, neg *bool) []int {
 	d := t.Sub(t0)
 	if d < 0 {
@@ -230,6 +308,8 @@ var profDurs = []time.Duration{time.Millisecond, 10 * time.Millisecond, 250 * ti
 func profileMain(args []string) {
 	fs := flag.NewFlagSet("profile", flag.ExitOnError)
 	out := fs.String("out", "", "trace file")
+	manyOut := fs.String("many", "", "trace file for the many-drains family (TraceProfileMany)")
+	nDrains := fs.Int("drains", 200, "concurrent drains per profile of the many-drains family")
 	nLines := fs.Int("lines", 200, "number of sampled line profiles")
 	nRand := fs.Int("random", 0, "number of random rational profiles")
 	maxTok := fs.Int("maxtokens", 12000, "skip profiles with more tokens")
@@ -336,6 +416,18 @@ func profileMain(args []string) {
 	for _, p := range conc {
 		w.Emit(runProfileConcurrent(p, 8, 40000))
 		n++
+	}
+	if *manyOut != "" {
+		mw := vt.Create(*manyOut)
+		for _, p := range []profSpec{
+			{Kind: "step", FromM: 1000000, ToM: 4000000, Step: 1, DurNs: int64(3500 * time.Microsecond)},
+			{Kind: "step", FromM: 500000, ToM: 3000000, Step: 2, DurNs: int64(2 * time.Millisecond)},
+			{Kind: "const", FromM: 7000000, ToM: 7000000, DurNs: int64(300 * time.Millisecond)},
+			{Kind: "once", Times: 3000},
+		} {
+			mw.Emit(runProfileMany(p, 8, *nDrains))
+		}
+		mw.Close()
 	}
 	fmt.Printf("{\"profiles\":%d,\"skipped\":%d}\n", n, skipped)
 }
